@@ -83,7 +83,8 @@ Proof. reflexivity. Qed.
 Example C10_ex_rejects_nonnumeric : is_err (decode [0; 1; 97; 0; 111; 0; 116; 115; 105; 122; 101; 0; 120; 0]) = true.
 Proof. reflexivity. Qed.
 Example C10_ex_must_reject : must_reject [0; 2; 97; 0; 111] = true /\ must_reject [0; 5; 0; 9; 0] = true
-  /\ must_reject [0; 4; 1] = true /\ must_reject [0; 1; 97; 0; 111; 0] = false.
+  /\ must_reject [0; 4; 1] = true /\ must_reject [0; 1; 97; 0; 111; 0] = false
+  /\ must_reject [0; 1; 97; 0; 111; 0; 88] = true /\ must_reject [0; 6; 88] = true /\ must_reject [0; 6] = false.
 Proof. repeat split; reflexivity. Qed.
 
 Print Assumptions C10_decode_never_panics.
